@@ -75,7 +75,7 @@ SrcAt(o, tiles, c) ==
     IN IF hit = {} THEN 0 ELSE tiles[CHOOSE i \in hit : TRUE][4]
 
 \* clauses that are reported but never demanded (see the drivers): they do not stand in the way of an admissible choice
-ObservationOnly == {"coverage", "declared", "tilejson_of_operation"}
+ObservationOnly == {"coverage", "declared"}
 (* judging one observed converting reader *)
 ConvFails1(r) ==
     LET o == r.opts  tiles == r.tiles  exp == ExpectedOut(o, r.srccov, tiles) IN
